@@ -41,6 +41,7 @@ type concState struct {
 	on       bool
 	shared   map[interface{}]string
 	owner    map[interface{}]int
+	ownerIdx map[interface{}]int // program-order index of the allocation in the owner's trace
 	thread   int
 	counter  map[int]int
 	held     map[int][]*lockSection
@@ -50,7 +51,7 @@ type concState struct {
 }
 
 func newConcState() *concState {
-	return &concState{shared: map[interface{}]string{}, owner: map[interface{}]int{}, counter: map[int]int{},
+	return &concState{shared: map[interface{}]string{}, owner: map[interface{}]int{}, ownerIdx: map[interface{}]int{}, counter: map[int]int{},
 		held: map[int][]*lockSection{}, seenAcc: map[string]bool{}}
 }
 
@@ -137,7 +138,9 @@ func (c *concState) relevant(addr interface{}) bool {
 	if _, ok := c.shared[addr]; ok {
 		return true
 	}
-	if o, ok := c.owner[addr]; ok && o != c.thread {
+	if o, ok := c.owner[addr]; ok && o != 0 {
+		// allocated by one of the requests: it may have been published to the
+		// other one, so both requests' accesses are logged
 		return true
 	}
 	return false
@@ -149,6 +152,7 @@ func (i *interpreter) noteAlloc(p interface{}) {
 		return
 	}
 	c.owner[p] = c.thread
+	c.ownerIdx[p] = c.counter[c.thread]
 }
 
 func (i *interpreter) noteAllocSlice(s []value) {
@@ -159,6 +163,7 @@ func (i *interpreter) noteAllocSlice(s []value) {
 	full := s[:cap(s)]
 	for k := range full {
 		c.owner[&full[k]] = c.thread
+		c.ownerIdx[&full[k]] = c.counter[c.thread]
 	}
 }
 
@@ -292,6 +297,37 @@ func (i *interpreter) raceQuery(a, b access) string {
 				continue
 			}
 			cons = append(cons, ts.Or(ts.Ult(sx.rel, sy.acq), ts.Ult(sy.rel, sx.acq)))
+		}
+	}
+	// publication order: an access by X to an object allocated by Y happened,
+	// in the observed run, after X left/entered a critical section that follows
+	// Y's first critical section (same lock) after the allocation - X can only
+	// have obtained the reference from what Y published under that lock.
+	for _, acc := range []access{a, b} {
+		y, owned := c.owner[acc.addr]
+		if !owned || y == acc.thread || y == 0 {
+			continue
+		}
+		alloc := c.ownerIdx[acc.addr]
+		var sx *sec
+		for k := range secs {
+			s := &secs[k]
+			if s.s.thread == acc.thread && s.s.acq < acc.idx && (sx == nil || s.s.acq > sx.s.acq) {
+				sx = s
+			}
+		}
+		if sx == nil {
+			continue
+		}
+		var sy *sec
+		for k := range secs {
+			s := &secs[k]
+			if s.s.thread == y && s.s.lock == sx.s.lock && s.s.acq > alloc && (sy == nil || s.s.acq < sy.s.acq) {
+				sy = s
+			}
+		}
+		if sy != nil {
+			cons = append(cons, ts.Ult(sy.rel, sx.acq))
 		}
 	}
 	cons = append(cons, ts.Eq(ca, cb))
